@@ -268,12 +268,12 @@ class Resolve(Harness):
     prop, ob = PROP, 'O3'
     width = 64
 
-    def __init__(self, pref, nans):
-        self.pref, self.nans = tuple(pref), nans
-        self.name = 'resolve-pref(%s)-%d' % (''.join(map(str, pref)) or 'none', nans)
+    def __init__(self, pref, nans, host='example'):
+        self.pref, self.nans, self.host = tuple(pref), nans, host
+        self.name = 'resolve-pref(%s)-%d-%s' % (''.join(map(str, pref)) or 'none', nans, host.replace(':', '_'))
 
     def params(self):
-        return {'pref': list(self.pref), 'nans': self.nans}
+        return {'pref': list(self.pref), 'nans': self.nans, 'host': self.host}
 
     def inputs(self):
         return {'fam': [zx.fresh_bool('f%d' % i) for i in range(self.nans)], 'port': zx.fresh_int('port', 1, 65535)}
@@ -284,7 +284,7 @@ class Resolve(Harness):
         net = AE.FakeNet([AE.Conn([]) for _ in range(4)], addrinfo=answer)
         out = M.outputbuffer.OutputBuffer()
         with AE.patched(M.ssh_socket, socket=net):
-            s = M.ssh_socket.SSH_Socket(out, 'example', inp['port'], list(self.pref))
+            s = M.ssh_socket.SSH_Socket(out, self.host, inp['port'], list(self.pref))
             err = guarded(s.connect)
         return {'err': err, 'resolved': net.resolved, 'dialled': [(c.family, c.connected_to) for c in net.made], 'answer': [(f, a[4][0]) for f, a in zip(fams, answer)]}
 
@@ -293,7 +293,7 @@ class Resolve(Harness):
         if isinstance(obs['err'], Exc):
             return
         want_fam = {(): 0, (4,): _socket.AF_INET, (6,): _socket.AF_INET6}.get(self.pref, 0)
-        yield 'resolver-asked-for-named-target', len(obs['resolved']) == 1 and obs['resolved'][0][0] == 'example' and bool(obs['resolved'][0][1] == inp['port']) and obs['resolved'][0][2] == want_fam
+        yield 'resolver-asked-for-named-target', len(obs['resolved']) == 1 and obs['resolved'][0][0] == self.host and bool(obs['resolved'][0][1] == inp['port']) and obs['resolved'][0][2] == want_fam
         ans = obs['answer']
         if self.pref in ((4,), (6,)):
             fam = _socket.AF_INET if self.pref == (4,) else _socket.AF_INET6
@@ -393,6 +393,9 @@ def tasks(tier):
     for pref in ((), (4,), (6,), (4, 6), (6, 4)):
         for n in ((0, 1, 2, 3) if q else (0, 1, 2, 3, 4)):
             T.append(Resolve(pref, n))
+        for host in ('2001:db8::5', '192.0.2.9'):
+            for n in (0, 1, 2):
+                T.append(Resolve(pref, n, host))
     for hi in range(4):
         for np_ in ((2, 5) if q else (1, 2, 3, 4, 5)):
             T.append(Label(hi, np_))
@@ -409,7 +412,7 @@ def harness_by_name(name, params):
     if k == 'targetsfile':
         return TargetsFile(p['shape'], p['with_p'])
     if k == 'resolve':
-        return Resolve(p['pref'], p['nans'])
+        return Resolve(p['pref'], p['nans'], p.get('host', 'example'))
     if k == 'label':
         return Label(p['hi'], p['nport'])
     raise KeyError(name)
